@@ -56,6 +56,13 @@ type passCtx struct {
 	back    map[edge][]*State
 	heads   map[*ssa.BasicBlock]map[int]*State
 	results []Result
+	rank    map[*ssa.BasicBlock]rankInfo
+}
+
+type rankInfo struct {
+	ok    bool
+	why   string
+	backs int
 }
 
 // analyse runs the function of frame fr from the given entry disjuncts to a
@@ -66,7 +73,7 @@ func (e *Engine) analyse(fr *Frame, entry []*State) []Result {
 		return []Result{{st: entry[0], ret: e.unk()}}
 	}
 	pc := &passCtx{fr: fr, order: rpo(fn), pos: map[*ssa.BasicBlock]int{}, isHead: map[*ssa.BasicBlock]bool{}, entry: entry,
-		back: map[edge][]*State{}, heads: map[*ssa.BasicBlock]map[int]*State{}}
+		back: map[edge][]*State{}, heads: map[*ssa.BasicBlock]map[int]*State{}, rank: map[*ssa.BasicBlock]rankInfo{}}
 	for i, b := range pc.order {
 		pc.pos[b] = i
 	}
@@ -362,6 +369,17 @@ func partitionKey(s *State) string {
 func (e *Engine) headStates(pc *passCtx, b *ssa.BasicBlock, fwd map[edge][]*State, pass int, final bool, stable *bool) []*State {
 	fr := pc.fr
 	if final {
+		if ri, ok := pc.rank[b]; ok {
+			e.curFr, e.curIns = fr, b
+			pos := b.Instrs[0].Pos()
+			for _, ins := range b.Instrs {
+				if ins.Pos().IsValid() {
+					pos = ins.Pos()
+					break
+				}
+			}
+			e.Check(nil, fr, pos, "P-rank", fmt.Sprintf("loop at block %d of %s", b.Index, fr.fn.Name()), ri.ok, ri.why)
+		}
 		var out []*State
 		var ls []int
 		for l := range pc.heads[b] {
@@ -444,15 +462,23 @@ func (e *Engine) headStates(pc *passCtx, b *ssa.BasicBlock, fwd map[edge][]*Stat
 	}
 	var out []*State
 	seenLin := map[int]bool{}
+	allRanked := rankInfo{ok: true, why: "no feasible back edge"}
+	defer func() {
+		pc.rank[b] = allRanked
+	}()
 	for _, l := range lins {
 		seenLin[l] = true
 		ins := byLin[l]
 		var pend []pendDef
 		var sts []*State
+		var isBack []bool
+		var phiSteps [][]phiStep
 		for _, in := range ins {
 			if in.pred != nil {
 				e.curFr, e.curIns = fr, b
-				e.bindPhis(in.st, fr, in.pred, b, true, l, &pend)
+				steps := e.bindPhis(in.st, fr, in.pred, b, true, l, &pend)
+				phiSteps = append(phiSteps, steps)
+				isBack = append(isBack, pc.pos[in.pred] >= pc.pos[b])
 				if pc.pos[in.pred] >= pc.pos[b] {
 					// back edge: values computed inside the loop body are dead at the head
 					for k := range in.st.vals {
@@ -472,8 +498,23 @@ func (e *Engine) headStates(pc *passCtx, b *ssa.BasicBlock, fwd map[edge][]*Stat
 							delete(in.st.vals, k)
 						}
 					}
-					e.gc(in.st)
+					var keep []AVal
+					for _, sp := range steps {
+						keep = append(keep, IntV{V(sp.old)})
+					}
+					// the previous head values (join symbols of cells) must survive until the join relates them to the new ones
+					if oldHead := pc.heads[b][l]; oldHead != nil {
+						for _, c := range oldHead.cells {
+							if c.V != nil {
+								keep = append(keep, c.V)
+							}
+						}
+					}
+					e.gc(in.st, keep...)
 				}
+			} else {
+				phiSteps = append(phiSteps, nil)
+				isBack = append(isBack, false)
 			}
 			sts = append(sts, in.st)
 		}
@@ -485,7 +526,20 @@ func (e *Engine) headStates(pc *passCtx, b *ssa.BasicBlock, fwd map[edge][]*Stat
 					// not part of the loop invariant; they are re-created on demand under the invariant
 					e.forgetInvObjects(s)
 				}
-				e.gc(s)
+				var keep []AVal
+				for _, sps := range phiSteps {
+					for _, sp := range sps {
+						keep = append(keep, IntV{V(sp.old)})
+					}
+				}
+				if oldHead := pc.heads[b][l]; oldHead != nil {
+					for _, c := range oldHead.cells {
+						if c.V != nil {
+							keep = append(keep, c.V)
+						}
+					}
+				}
+				e.gc(s, keep...)
 			}
 			// identical incoming states (same constraints, cells, values): keep one
 			seen := map[string]bool{}
@@ -499,9 +553,14 @@ func (e *Engine) headStates(pc *passCtx, b *ssa.BasicBlock, fwd map[edge][]*Stat
 			}
 			if len(keepIdx) < len(sts) {
 				var ns []*State
+				var nb []bool
+				var nps [][]phiStep
 				for _, i := range keepIdx {
 					ns = append(ns, sts[i])
+					nb = append(nb, isBack[i])
+					nps = append(nps, phiSteps[i])
 				}
+				isBack, phiSteps = nb, nps
 				for pi := range pend {
 					if len(pend[pi].exp) == len(sts) {
 						var ne []Lin
@@ -540,8 +599,27 @@ func (e *Engine) headStates(pc *passCtx, b *ssa.BasicBlock, fwd map[edge][]*Stat
 			}
 			os.Exit(0)
 		}
-		j := e.joinAllDefs(sts, fr, where, true, pend)
+		info := &joinInfo{}
+		j := e.joinAllDefs(sts, fr, where, true, pend, info)
 		j.lins[hk] = l
+		var backs []backStep
+		for wi, oi := range info.kept {
+			if oi < len(isBack) && isBack[oi] && wi < len(info.work) {
+				if e.exitsAtHead(info.work[wi], fr, b) {
+					continue // this back-edge state leaves the loop at the header test: not an iteration
+				}
+				steps := append(append([]phiStep{}, phiSteps[oi]...), info.steps[wi]...)
+				backs = append(backs, backStep{info.work[wi], steps})
+			}
+		}
+		if len(info.kept) == 0 && len(sts) == 1 {
+			// single state: no join happened, no back edge
+		}
+		if ri := e.rankLoop(backs); !ri.ok {
+			allRanked = ri
+		} else if allRanked.ok && ri.backs > 0 {
+			allRanked = ri
+		}
 		if old := pc.heads[b][l]; old != nil {
 			if pass >= widenFrom {
 				j = e.widen(old, j)
@@ -604,7 +682,18 @@ func (e *Engine) widen(old, nw *State) *State {
 
 // bindPhis assigns the phis of block b for the edge p→b.  At loop heads the
 // integer / string phis are bound to per-(head,lineage) join symbols.
-func (e *Engine) bindPhis(st *State, fr *Frame, p, b *ssa.BasicBlock, head bool, lin int, pend *[]pendDef) {
+type phiStep struct {
+	z, old Sym
+	name   string
+}
+
+type backStep struct {
+	st    *State
+	steps []phiStep
+}
+
+func (e *Engine) bindPhis(st *State, fr *Frame, p, b *ssa.BasicBlock, head bool, lin int, pend *[]pendDef) []phiStep {
+	var steps []phiStep
 	idx := -1
 	for i, q := range b.Preds {
 		if q == p {
@@ -612,7 +701,7 @@ func (e *Engine) bindPhis(st *State, fr *Frame, p, b *ssa.BasicBlock, head bool,
 		}
 	}
 	if idx < 0 {
-		return
+		return nil
 	}
 	type bind struct {
 		phi *ssa.Phi
@@ -649,6 +738,7 @@ func (e *Engine) bindPhis(st *State, fr *Frame, p, b *ssa.BasicBlock, head bool,
 				ne := x.L.Subst(z, V(tmp))
 				st.addEQ(V(z), ne)
 				addPend(z, ne)
+				steps = append(steps, phiStep{z, tmp, bd.phi.Comment})
 				v = IntV{V(z)}
 			case StrV:
 				if x.Const == nil {
@@ -663,16 +753,26 @@ func (e *Engine) bindPhis(st *State, fr *Frame, p, b *ssa.BasicBlock, head bool,
 					st.addEQ(V(zh), nh)
 					addPend(zl, nl)
 					addPend(zh, nh)
+					steps = append(steps, phiStep{zl, t1, bd.phi.Comment + ".lo"}, phiStep{zh, t2, bd.phi.Comment + ".hi"})
 					v = StrV{Root: x.Root, Lo: V(zl), Hi: V(zh)}
 				}
 			}
 		}
 		st.vals[vkey{fr.id, bd.phi}] = v
 	}
+	return steps
 }
 
 func (e *Engine) joinAll(ss []*State, fr *Frame, where string, head bool) *State {
-	return e.joinAllDefs(ss, fr, where, head, nil)
+	return e.joinAllDefs(ss, fr, where, head, nil, nil)
+}
+
+// joinInfo exposes, for loop heads, the per-side states after merging and the
+// (join symbol, previous value) pairs introduced for merged cells and values.
+type joinInfo struct {
+	work  []*State
+	steps [][]phiStep
+	kept  []int // indices of the input states that survived (feasible)
 }
 
 // joinAllDefs: generic join.  Values/cells that differ are merged into join
@@ -680,13 +780,15 @@ func (e *Engine) joinAll(ss []*State, fr *Frame, where string, head bool) *State
 // side's constraints, constraints rewritten through join-symbol definitions,
 // threshold templates on join symbols (loop heads), entry-relative templates,
 // and the declared struct invariant on merged cells.
-func (e *Engine) joinAllDefs(ss []*State, fr *Frame, where string, head bool, pend []pendDef) *State {
+func (e *Engine) joinAllDefs(ss []*State, fr *Frame, where string, head bool, pend []pendDef, info *joinInfo) *State {
 	defer func(t string) { e.LP.Tag = t }(e.LP.Tag)
 	e.LP.Tag = "join"
 	var live []*State
-	for _, s := range ss {
+	var keptIdx []int
+	for i, s := range ss {
 		if e.feasible(s) {
 			live = append(live, s)
+			keptIdx = append(keptIdx, i)
 		}
 	}
 	if len(live) == 0 {
@@ -694,8 +796,20 @@ func (e *Engine) joinAllDefs(ss []*State, fr *Frame, where string, head bool, pe
 		d.dead = true
 		return d
 	}
+	if len(pend) > 0 && len(live) < len(ss) {
+		// keep the pending definitions aligned with the surviving states
+		for pi := range pend {
+			if len(pend[pi].exp) == len(ss) {
+				var ne []Lin
+				for _, i := range keptIdx {
+					ne = append(ne, pend[pi].exp[i])
+				}
+				pend[pi].exp = ne
+			}
+		}
+	}
 	ss = live
-	if len(pend) == 0 {
+	if len(pend) == 0 && info == nil {
 		ss = e.dedupe(ss)
 	}
 	if len(ss) == 1 && len(pend) == 0 {
@@ -709,6 +823,11 @@ func (e *Engine) joinAllDefs(ss []*State, fr *Frame, where string, head bool, pe
 	for i, s := range ss {
 		work[i] = s.clone()
 	}
+	if info != nil {
+		info.work = work
+		info.steps = make([][]phiStep, len(ss))
+		info.kept = keptIdx
+	}
 	type def struct {
 		z   Sym
 		exp []Lin
@@ -721,6 +840,9 @@ func (e *Engine) joinAllDefs(ss []*State, fr *Frame, where string, head bool, pe
 			w.renameSym(z, tmp)
 			ls[i] = ls[i].Subst(z, V(tmp))
 			w.addEQ(V(z), ls[i])
+			if info != nil {
+				info.steps[i] = append(info.steps[i], phiStep{z, tmp, tag})
+			}
 		}
 		defs = append(defs, def{z, ls})
 		return V(z)
@@ -1103,6 +1225,20 @@ func (e *Engine) joinAllDefs(ss []*State, fr *Frame, where string, head bool, pe
 	for _, d := range defs {
 		liveR[d.z] = true
 	}
+	if info != nil {
+		for _, sps := range info.steps {
+			for _, sp := range sps {
+				liveR[sp.old] = true
+			}
+		}
+		for _, pd := range pend {
+			for _, ex := range pd.exp {
+				for _, t := range ex.T {
+					liveR[t.S] = true
+				}
+			}
+		}
+	}
 	// project each side onto the live symbols first, so that facts that hold only
 	// through a dead intermediate symbol become direct candidates
 	for _, w := range work {
@@ -1259,4 +1395,178 @@ func stateSig(s *State) string {
 	}
 	sort.Strings(parts)
 	return strings.Join(parts, "|")
+}
+
+// rankLoop looks for a ranking function among the integer / cursor phis of a
+// loop head: a symbol that strictly increases (decreases) on every back edge
+// and is bounded above (below) by a loop-independent quantity.
+func (e *Engine) rankLoop(backs []backStep) rankInfo {
+	if len(backs) == 0 {
+		return rankInfo{ok: true, why: "no feasible back edge"}
+	}
+	defer func(t string) { e.LP.Tag = t }(e.LP.Tag)
+	e.LP.Tag = "rank"
+	// candidate symbols: those bound on every back edge
+	type cand struct {
+		name string
+		inc  bool
+	}
+	count := map[Sym]int{}
+	names := map[Sym]string{}
+	for _, b := range backs {
+		for _, s := range b.steps {
+			count[s.z]++
+			names[s.z] = s.name
+		}
+	}
+	var syms []Sym
+	for z, n := range count {
+		if n == len(backs) {
+			syms = append(syms, z)
+		}
+	}
+	sortSyms(syms)
+	var tried []string
+	for _, z := range syms {
+		for _, inc := range []bool{true, false} {
+			ok := true
+			for _, b := range backs {
+				var old Sym = -1
+				for _, s := range b.steps {
+					if s.z == z {
+						old = s.old
+					}
+				}
+				if old < 0 {
+					ok = false
+					break
+				}
+				if inc {
+					if !e.proveLE(b.st, V(old).AddK(1), V(z)) {
+						ok = false
+					}
+				} else if !e.proveLE(b.st, V(z).AddK(1), V(old)) {
+					ok = false
+				}
+				if !ok {
+					break
+				}
+				// bounded by something the loop does not change: any symbol that is not one
+				// of this head's moving symbols (nor their previous values)
+				moving := map[Sym]bool{}
+				for _, s2 := range b.steps {
+					if !e.proveEQ(b.st, V(s2.z), V(s2.old)) {
+						moving[s2.z] = true
+						moving[s2.old] = true
+					}
+				}
+				bounded := false
+				if inc {
+					if e.proveLE(b.st, V(z), K(1<<20)) {
+						bounded = true
+					}
+					seen := map[Sym]bool{}
+					for _, c := range b.st.cons {
+						if bounded {
+							break
+						}
+						for _, t := range c.T {
+							if t.S == z || moving[t.S] || seen[t.S] {
+								continue
+							}
+							seen[t.S] = true
+							if e.proveLE(b.st, V(z), V(t.S).AddK(64)) {
+								bounded = true
+								break
+							}
+						}
+					}
+					if !bounded {
+						// through an unmoved phi (cursor hi) that is itself bounded
+						for _, s2 := range b.steps {
+							if s2.z != z && !moving[s2.z] && e.proveLE(b.st, V(z), V(s2.z).AddK(64)) {
+								bounded = true
+							}
+						}
+					}
+				} else {
+					bounded = e.proveLE(b.st, K(-64), V(z))
+				}
+				if !bounded {
+					ok = false
+					break
+				}
+			}
+			dir := "decreases"
+			if inc {
+				dir = "increases"
+			}
+			if ok {
+				return rankInfo{ok: true, why: fmt.Sprintf("%s strictly %s on every back edge and is bounded", names[z], dir), backs: len(backs)}
+			}
+		}
+		tried = append(tried, names[z])
+	}
+	if os.Getenv("VERIF_DBGRANK") != "" && len(backs) > 0 {
+		for bi, b := range backs {
+			fmt.Fprintf(os.Stderr, "RANK back %d steps:", bi)
+			for _, sp := range b.steps {
+				fmt.Fprintf(os.Stderr, " %s(z=%s old=%s)", sp.name, e.SymName(sp.z), e.SymName(sp.old))
+			}
+			fmt.Fprintln(os.Stderr)
+			for _, sp := range b.steps {
+				fmt.Fprintf(os.Stderr, "   %s: inc=%v dec=%v\n", sp.name, e.proveLE(b.st, V(sp.old).AddK(1), V(sp.z)), e.proveLE(b.st, V(sp.z).AddK(1), V(sp.old)))
+				for _, c := range b.st.cons {
+					if c.Has(sp.z) {
+						fmt.Fprintf(os.Stderr, "      %s <= 0\n", e.LinStr(c))
+					}
+				}
+			}
+		}
+	}
+	return rankInfo{ok: false, why: fmt.Sprintf("no strictly monotone bounded phi found among %v on %d back edge state(s)", tried, len(backs)), backs: len(backs)}
+}
+
+// exitsAtHead: with the phis bound as in st, does the header's own test send
+// control out of the loop?
+func (e *Engine) exitsAtHead(st *State, fr *Frame, b *ssa.BasicBlock) bool {
+	if len(b.Instrs) == 0 {
+		return false
+	}
+	iff, ok := b.Instrs[len(b.Instrs)-1].(*ssa.If)
+	if !ok {
+		return false
+	}
+	// only conditions that are phis of the header (already bound) are decided here
+	if ph, isPhi := iff.Cond.(*ssa.Phi); !isPhi || ph.Block() != b {
+		return false
+	}
+	c, ok := e.val(st, fr, iff.Cond).(BoolV)
+	if !ok || c.Known == 0 {
+		return false
+	}
+	taken := 0
+	if c.Known == 2 {
+		taken = 1
+	}
+	// natural loop of b: b plus everything that reaches a back-edge source without passing b
+	body := map[*ssa.BasicBlock]bool{b: true}
+	var work []*ssa.BasicBlock
+	for _, p := range b.Preds {
+		if b.Dominates(p) && !body[p] {
+			body[p] = true
+			work = append(work, p)
+		}
+	}
+	for len(work) > 0 {
+		x := work[len(work)-1]
+		work = work[:len(work)-1]
+		for _, p := range x.Preds {
+			if !body[p] {
+				body[p] = true
+				work = append(work, p)
+			}
+		}
+	}
+	return !body[b.Succs[taken]]
 }
